@@ -293,3 +293,34 @@ func ReplacerReplace(s string, pairs []string) string {
 	}
 	return string(out)
 }
+
+// StringsTrimRightSpace models strings.TrimRightFunc(s, unicode.IsSpace).
+func StringsTrimRightSpace(s string) string {
+	end := len(s)
+	for end > 0 {
+		n := 0
+		for k := 1; k <= 3 && n == 0; k++ {
+			if end-k >= 0 && spaceAt(s, end-k, end) == k {
+				n = k
+			}
+		}
+		if n == 0 {
+			break
+		}
+		end -= n
+	}
+	return s[:end]
+}
+
+// StringsTrimLeftSpace models strings.TrimLeftFunc(s, unicode.IsSpace).
+func StringsTrimLeftSpace(s string) string {
+	start, end := 0, len(s)
+	for start < end {
+		n := spaceAt(s, start, end)
+		if n == 0 {
+			break
+		}
+		start += n
+	}
+	return s[start:]
+}
